@@ -134,14 +134,33 @@ def gen_building(rng, n=None, allow_aux=True, allow_multi_aux=False, allow_out=T
             sign = -1 if srv == "REF" and rng.random() < 0.7 else 1
             b.add("SALIDA", id=i, service=srv, values=[sign * x for x in vec(rng, n, pzero=0.05)])
             b.tags.add("out")
-        if allow_aux and rng.random() < 0.3:
-            # auxiliaries for a system: only safe (single service) unless allow_multi_aux
-            srvs_of_i = {kw["service"] for k, kw in b.lines if k == "CONSUMO" and kw["id"] == i}
-            if len(srvs_of_i) == 1 or allow_multi_aux:
-                av = vec(rng, n, hi=64 * 20)
-                b.add("AUX", id=i, values=av)
-                el_users.append(av)
-                b.tags.add("aux")
+
+    if allow_aux:
+        for i in ids:
+            if rng.random() < 0.35:
+                srvs_of_i = {kw["service"] for k, kw in b.lines if k == "CONSUMO" and kw["id"] == i}
+                if len(srvs_of_i) == 1:
+                    av = vec(rng, n, hi=64 * 20)
+                    b.add("AUX", id=i, values=av)
+                    el_users.append(av)
+                    b.tags.add("aux")
+                elif len(srvs_of_i) > 1 and allow_multi_aux:
+                    # multi-service system: needs output energy for its services
+                    for srv in sorted(srvs_of_i):
+                        if not any(k == "SALIDA" and kw["id"] == i and kw["service"] == srv for k, kw in b.lines):
+                            sign = -1 if srv == "REF" else 1
+                            b.add("SALIDA", id=i, service=srv, values=[sign * x for x in vec(rng, n, pzero=0.0)])
+                    av = vec(rng, n, hi=64 * 20)
+                    b.add("AUX", id=i, values=av)
+                    el_users.append(av)
+                    b.tags.add("aux_multi")
+
+    aux_ids = {kw["id"] for k, kw in b.lines if k == "AUX"}
+
+    def pick_id_noaux():
+        # the service assignment of auxiliaries looks at *all* CONSUMO lines of the system (incl. NEPB, COGEN)
+        free = [i for i in ids if i not in aux_ids]
+        return rng.choice(free) if free else 50
 
     el_tot = [sum(col) for col in zip(*el_users)] if el_users else [Fraction(0)] * n
 
@@ -183,14 +202,14 @@ def gen_building(rng, n=None, allow_aux=True, allow_multi_aux=False, allow_out=T
         nf = rng.choice([1, 1, 2])
         for _ in range(nf):
             fuel = rng.choice(["GASNATURAL", "BIOMASA", "GASOLEO", "BIOCARBURANTE", "RED1"])
-            b.add("CONSUMO", id=pick_id(), service="COGEN", carrier=fuel,
+            b.add("CONSUMO", id=pick_id_noaux(), service="COGEN", carrier=fuel,
                   values=[x * rng.choice([2, 3]) for x in chp])
         b.tags.add("chp")
         if want_pv:
             b.tags.add("pv+chp")
     if "nepb" in force or rng.random() < 0.4:
         cr = rng.choice(["ELECTRICIDAD", "ELECTRICIDAD", "ELECTRICIDAD", "GASNATURAL", "EAMBIENTE", "TERMOSOLAR"])
-        b.add("CONSUMO", id=pick_id(), service="NEPB", carrier=cr, values=vec(rng, n, hi=64 * 100))
+        b.add("CONSUMO", id=pick_id_noaux(), service="NEPB", carrier=cr, values=vec(rng, n, hi=64 * 100))
         b.tags.add("nepb_" + ("el" if cr == "ELECTRICIDAD" else "other"))
     for srv in ("ACS", "CAL", "REF"):
         if rng.random() < 0.4:
@@ -252,6 +271,6 @@ def gen_factors_spec(rng):
 
 def gen_params(rng):
     k = rng.choice([0, 1, 0.25, 0.5, 0.75, rng.randint(0, 64) / 64.0])
-    area = rng.choice([1.0, 1.0, 100.5, 0.0009765625, 2.0, 1000.0, 31.25, 100000.0])
+    area = rng.choice([1.0, 1.0, 100.5, 0.001953125, 2.0, 1000.0, 31.25, 100000.0])
     lm = rng.random() < 0.5
     return k, area, lm
